@@ -171,7 +171,7 @@ def run_case(ns, mon, c):
         elif ident in ("maxpool2d", "avgpool2d"):
             N, C, H, W, k, s, p, d = c["N"], c["C"], c["H"], c["W"], c["k"], c["s"], c["p"], c["d"]
             lH, lW = R.out_len(H, k[0], s[0], p[0], d[0]), R.out_len(W, k[1], s[1], p[1], d[1])
-            x = gen.values(rng, (N, C, H, W), "distinct")
+            x = gen.values(rng, (N, C, H, W), "distinct" if rng.random() < 0.5 else "intvalued")      # half of the cases have tied maxima
             mx = ident == "maxpool2d"
 
             def compp(x_):
@@ -183,7 +183,7 @@ def run_case(ns, mon, c):
         elif ident in ("maxpool1d", "avgpool1d"):
             N, C, L, k, s, p, d = c["N"], c["C"], c["L"], c["k"], c["s"], c["p"], c["d"]
             lW = R.out_len(L, k, s, p, d)
-            x = gen.values(rng, (N, C, L), "distinct")
+            x = gen.values(rng, (N, C, L), "distinct" if rng.random() < 0.5 else "intvalued")
             mx = ident == "maxpool1d"
 
             def compp1(x_):
